@@ -271,7 +271,9 @@ def unreduced_cross_entropy_loss(targets: jnp.ndarray,
     # If targets is sparse, convert to one hot representation.
     num_classes = preds.shape[-1]
     targets = jax.nn.one_hot(targets, num_classes)
-  return -jnp.sum(targets * log_preds, axis=-1)
+  # Classes with zero target weight contribute nothing, also when their log
+  # probability is -inf (0 * -inf would be NaN).
+  return -jnp.sum(jnp.where(targets == 0, 0., targets * log_preds), axis=-1)
 
 
 @dataclasses.dataclass
